@@ -153,13 +153,24 @@ func valid(v Val, depth int) bool {
 var (
 	reIntNumeral = regexp.MustCompile(`^[+-]?[0-9]+$`)
 	reDecNumeral = regexp.MustCompile(`^[+-]?[0-9]+(\.[0-9]+)?([eE][+-]?[0-9]+)?$`)
+	// a decimal numeral whose integer part or fraction part is left empty (".5", "5.", "-.5e3")
+	reBarePointNumeral = regexp.MustCompile(`^[+-]?([0-9]+\.[0-9]*|\.[0-9]+)([eE][+-]?[0-9]+)?$`)
+	reHexFloat         = regexp.MustCompile(`^[+-]?0[xX][0-9a-fA-F_]*(\.[0-9a-fA-F_]*)?[pP][+-]?[0-9_]+$`)
+	reBasedInt         = regexp.MustCompile(`^[+-]?0([xX][0-9a-fA-F_]+|[bB][01_]+|[oO][0-7_]+)$`)
+	reDigitSeparators  = regexp.MustCompile(`^[+-]?[0-9]+(_[0-9]+)*(\.[0-9]+(_[0-9]+)*)?([eE][+-]?[0-9]+(_[0-9]+)*)?$`)
 )
 
 // numeral classifies a string.
 //
 //	"int" / "float": strict decimal numeral, n is the number it denotes
 //	"plain": not a numeral in any spelling (no digit, not an Inf/NaN word)
-//	anything else: a spelling the statement is silent about (laws only)
+//	"padded-numeral": a strict decimal numeral with white space before and/or after it
+//	"not-decimal:<how>": a spelling of a number (or something close to one) that is NOT a decimal
+//	    numeral - optional sign, digits with an optional fraction, optional exponent - also not after
+//	    white space around it is taken off: hexadecimal float, 0x/0b/0o integer, digits separated by
+//	    '_', an Inf/NaN word, anything else with a digit in it ("1x", "1e", "1.0.0", "1,000", "--1")
+//	anything else: a spelling the statement is silent about (laws only): numerals outside the range,
+//	    a numeral with an empty integer or fraction part (".5", "5."), digits outside ASCII
 func numeral(s string) (class string, n Val) {
 	if reIntNumeral.MatchString(s) {
 		i, err := strconv.ParseInt(s, 10, 64)
@@ -184,18 +195,42 @@ func numeral(s string) (class string, n Val) {
 		}
 		return "float", vFloat(f)
 	}
+	t := strings.TrimSpace(s)
+	if t != s && reDecNumeral.MatchString(t) {
+		return "padded-numeral", Val{}
+	}
+	if reBarePointNumeral.MatchString(t) {
+		// whether "5." and ".5" are decimal numerals is a matter of reading
+		return "bare-point-numeral", Val{}
+	}
+	ascii := false
 	for _, r := range s {
-		if unicode.IsDigit(r) {
-			return "odd-spelling", Val{}
+		if r >= '0' && r <= '9' {
+			ascii = true
+		} else if r > unicode.MaxASCII && (unicode.IsDigit(r) || unicode.IsNumber(r)) {
+			// "١" is a decimal digit of another script: the statement does not say which digits it means
+			return "non-ascii-digits", Val{}
 		}
 	}
-	w := strings.ToLower(strings.TrimSpace(s))
-	w = strings.TrimLeft(w, "+-")
+	w := strings.TrimLeft(strings.ToLower(t), "+-")
 	switch w {
-	case "inf", "infinity", "nan":
-		return "odd-spelling", Val{}
+	case "inf", "infinity":
+		return "not-decimal:inf-word", Val{}
+	case "nan":
+		return "not-decimal:nan-word", Val{}
 	}
-	return "plain", Val{}
+	if !ascii {
+		return "plain", Val{}
+	}
+	switch {
+	case reHexFloat.MatchString(t):
+		return "not-decimal:hex-float", Val{}
+	case reBasedInt.MatchString(t):
+		return "not-decimal:based-int", Val{}
+	case reDigitSeparators.MatchString(t):
+		return "not-decimal:digit-separators", Val{}
+	}
+	return "not-decimal:malformed", Val{}
 }
 
 // numEq is the numeric rule of the statement.
@@ -384,6 +419,20 @@ func ref(a, b Val) (defined, want bool, clause string) {
 		return true, want, "str-num-" + cls + "-numeral"
 	case "plain":
 		return true, false, "str-num-not-numeral"
+	case "not-decimal:hex-float", "not-decimal:based-int", "not-decimal:digit-separators", "not-decimal:inf-word",
+		"not-decimal:nan-word", "not-decimal:malformed":
+		// "A string and a number are equal exactly when the string is a decimal numeral denoting that
+		// number": a string that is no decimal numeral (whatever strconv may read out of it) equals no number
+		return true, false, "str-num-" + strings.ReplaceAll(cls, ":", "-")
+	case "padded-numeral":
+		// Whether white space around a numeral still leaves "a decimal numeral denoting that number" is a
+		// matter of reading (the strict one says the string is no numeral: never equal; the lenient one
+		// says it denotes what the numeral inside denotes). Where the numeral inside is defined NOT to
+		// equal the number, both readings say "not equal"; where it is equal they differ: laws only.
+		if d, w, _ := ref(vStr(strings.TrimSpace(s.S)), n); d && !w {
+			return true, false, "str-num-padded-numeral-of-another-number"
+		}
+		return false, false, "str-num-padded-numeral"
 	case "int-numeral-outside-int64":
 		// a decimal numeral all the same: it denotes an integer no int64 holds. Against a float64 it
 		// is equal when the float is exactly that integer, unequal when the numeral does not even
@@ -423,9 +472,13 @@ var nearNumerals = []string{
 	"Inf", "+Inf", "-Inf", "inf", "Infinity", "-infinity", "NaN", "nan", "+nan",
 	".5", "5.", "-.5", "1e", "e1", "1e+", "1.0.0", "--1", "+-1", "1,000", "1.5e", "١", "1e400", "-1e400", "1e-400",
 	"0x", "0b", "+", "-", ".", "e", "true", "false", "nil", "1/2", "1 000",
+	"0x1.8p1", "0X1P+04", "0x.8p1", "-0x1p-1", "0x1p-1", "0x3e8", "0b1", "1_000", "1_0.0", "1_5e-1", "1__0", "_1", "1_", "0_1",
+	"infinity", "+Infinity", "INF", "NAN", "-NaN", "Infinit", "in", "na",
 }
 
-var nearNumbers = []float64{0, 1, -1, 16, 3, 15, 10, 1000, 1000000, 0.5, -0.5, 5, 1.5}
+var whitePads = []string{"", "", "", " ", " ", "  ", "\t", "\n", "\r\n"}
+
+var nearNumbers = []float64{0, 1, -1, 16, 3, 15, 10, 1000, 1000000, 0.5, -0.5, 5, 1.5, 100, 17}
 
 func genFloat(t *rapid.T, nan bool) float64 {
 	if nan && rapid.IntRange(0, 11).Draw(t, "nan?") == 0 {
@@ -548,6 +601,171 @@ func genStr(t *rapid.T) string {
 	default:
 		return rapid.SampledFrom(nearNumerals).Draw(t, "near")
 	}
+}
+
+var (
+	infWords = []string{"Inf", "+Inf", "-Inf", "inf", "INF", "Infinity", "+Infinity", "-Infinity", "infinity", "-infinity", "+inf", "-inf"}
+	nanWords = []string{"NaN", "nan", "NAN", "+NaN", "-nan"}
+)
+
+// dropExpPadding turns the exponent FormatFloat writes ("p+04", "e+06") into the shortest one ("p4", "e6").
+func dropExpPadding(s string, marks string) string {
+	i := strings.LastIndexAny(s, marks)
+	if i < 0 {
+		return s
+	}
+	e := s[i+1:]
+	sign := ""
+	if strings.HasPrefix(e, "-") {
+		sign = "-"
+	}
+	e = strings.TrimLeft(e, "+-")
+	e = strings.TrimLeft(e, "0")
+	if e == "" {
+		e = "0"
+	}
+	return s[:i+1] + sign + e
+}
+
+// separate writes '_' between digits of a decimal spelling: in thousands groups, or in one place.
+func separate(t *rapid.T, s string) string {
+	// digit runs
+	var cuts []int // positions p with digits at p-1 and p
+	for p := 1; p < len(s); p++ {
+		if s[p-1] >= '0' && s[p-1] <= '9' && s[p] >= '0' && s[p] <= '9' {
+			cuts = append(cuts, p)
+		}
+	}
+	if len(cuts) == 0 {
+		// a single digit: give it a leading zero to separate
+		i := strings.IndexAny(s, "0123456789")
+		if i < 0 {
+			return s + "_0"
+		}
+		return s[:i] + "0_" + s[i:]
+	}
+	if rapid.Bool().Draw(t, "groups") {
+		// groups of three counted from the end of the first digit run
+		i := strings.IndexAny(s, "0123456789")
+		j := i
+		for j < len(s) && s[j] >= '0' && s[j] <= '9' {
+			j++
+		}
+		if j-i > 3 {
+			var sb strings.Builder
+			sb.WriteString(s[:i])
+			for k := i; k < j; k++ {
+				if k > i && (j-k)%3 == 0 {
+					sb.WriteByte('_')
+				}
+				sb.WriteByte(s[k])
+			}
+			sb.WriteString(s[j:])
+			return sb.String()
+		}
+	}
+	p := cuts[rapid.IntRange(0, len(cuts)-1).Draw(t, "cut")]
+	return s[:p] + "_" + s[p:]
+}
+
+// nonDecimalSpell spells the number n in a way strconv (or a programmer) may read as n but that is
+// not a decimal numeral. how names the family.
+func nonDecimalSpell(t *rapid.T, n Val) (s, how string) {
+	f := n.f()
+	if n.K == "int" {
+		f = float64(n.I)
+	}
+	whole := n.K == "int" || (f == math.Trunc(f) && fitsInt64(f))
+	k := uniform(t, 10, "ndk")
+	switch {
+	case k <= 2:
+		how = "hex-float"
+		format := byte('x')
+		if rapid.IntRange(0, 3).Draw(t, "upper") == 0 {
+			format = 'X'
+		}
+		s = strconv.FormatFloat(f, format, -1, 64)
+		if math.IsInf(f, 0) || math.IsNaN(f) {
+			return s, "inf-nan-word"
+		}
+		if rapid.Bool().Draw(t, "shortexp") {
+			s = dropExpPadding(s, "pP")
+		}
+	case k <= 5:
+		how = "digit-separators"
+		var d string
+		if n.K == "int" {
+			d = strconv.FormatInt(n.I, 10)
+			if rapid.IntRange(0, 3).Draw(t, "frac") == 0 {
+				d += ".0"
+			}
+		} else {
+			if math.IsInf(f, 0) || math.IsNaN(f) {
+				return strconv.FormatFloat(f, 'g', -1, 64), "inf-nan-word"
+			}
+			d = strconv.FormatFloat(f, 'f', -1, 64)
+			if rapid.IntRange(0, 3).Draw(t, "exp") == 0 {
+				d = strconv.FormatFloat(f, 'e', -1, 64)
+			}
+		}
+		s = separate(t, d)
+	case k <= 7 && whole:
+		how = "based-int"
+		i := int64(f)
+		if n.K == "int" {
+			i = n.I
+		}
+		base, prefix := 16, "0x"
+		switch rapid.IntRange(0, 5).Draw(t, "base") {
+		case 0:
+			prefix = "0X"
+		case 1:
+			base, prefix = 2, "0b"
+		case 2:
+			base, prefix = 8, "0o"
+		}
+		d := strconv.FormatInt(i, base)
+		if strings.HasPrefix(d, "-") {
+			s = "-" + prefix + d[1:]
+		} else {
+			s = prefix + d
+		}
+	default:
+		how = "malformed"
+		var d string
+		if n.K == "int" {
+			d = strconv.FormatInt(n.I, 10)
+		} else {
+			if math.IsInf(f, 0) || math.IsNaN(f) {
+				return strconv.FormatFloat(f, 'g', -1, 64), "inf-nan-word"
+			}
+			d = strconv.FormatFloat(f, 'g', -1, 64)
+		}
+		switch rapid.IntRange(0, 7).Draw(t, "mal") {
+		case 0:
+			s = d + rapid.SampledFrom([]string{"x", "f", "L", "i", "d", "%", "h"}).Draw(t, "suffix")
+		case 1:
+			if strings.ContainsAny(d, "eE") {
+				s = d + "e1"
+			} else {
+				s = d + rapid.SampledFrom([]string{"e", "e+", "E-", "p0"}).Draw(t, "tail")
+			}
+		case 2:
+			s = rapid.SampledFrom([]string{"--", "+-", "-+", "++", "$", "#", "="}).Draw(t, "lead") + strings.TrimLeft(d, "-")
+		case 3:
+			s = d + ".0.0"
+		case 4:
+			// thousands written with a comma, or a decimal comma
+			s = strings.ReplaceAll(separate(t, d), "_", ",")
+		case 5:
+			s = strings.ReplaceAll(separate(t, d), "_", " ")
+		case 6:
+			s = strings.ReplaceAll(separate(t, d), "_", "'")
+		default:
+			s = d + "/1"
+		}
+	}
+	return s, how
 }
 
 func genPrim(t *rapid.T, nan bool) Val {
@@ -824,6 +1042,8 @@ var shapes = []string{
 	"int-float", "int-float", "int-float",
 	"num-numeral", "num-numeral", "num-numeral", "num-numeral",
 	"num-near-numeral",
+	"num-nondecimal", "num-nondecimal",
+	"num-padded-numeral",
 	"str-str",
 	"nil-any",
 	"bool-any",
@@ -887,6 +1107,75 @@ func genCase(t *rapid.T) Case {
 			y = genNum(t, true)
 		}
 		a, b = x, vStr(spell(t, y))
+	case "num-padded-numeral":
+		// a numeral of the number itself, of its other kind, of a neighbour (most often: beyond 2^53
+		// neighbours are one float64) or of another number, with white space around it
+		x := genNum(t, false)
+		y := x
+		switch uniform(t, 8, "pvia") {
+		case 0:
+			y = otherKind(x)
+		case 1, 2, 3, 4:
+			y = neighbour(t, x)
+		case 5:
+			y = neighbour(t, otherKind(x))
+		case 6:
+			y = genNum(t, false)
+		}
+		lead := whitePads[uniform(t, len(whitePads), "lead")]
+		trail := whitePads[uniform(t, len(whitePads), "trail")]
+		if lead == "" && trail == "" {
+			if rapid.Bool().Draw(t, "padside") {
+				lead = " "
+			} else {
+				trail = " "
+			}
+		}
+		a, b = x, vStr(lead+spell(t, y)+trail)
+	case "num-nondecimal":
+		// the number itself (or its other kind, or a neighbour, or any number) spelled as a hexadecimal
+		// float, with digit separators, as a 0x/0b/0o integer, or broken; an infinity or NaN against the words
+		var x, y Val
+		var s, how string
+		if uniform(t, 6, "words") == 0 {
+			how = "inf-nan-word"
+			if rapid.IntRange(0, 3).Draw(t, "nanword") == 0 {
+				s = nanWords[uniform(t, len(nanWords), "nw")]
+				x = vFloat(math.NaN())
+			} else {
+				s = infWords[uniform(t, len(infWords), "iw")]
+				x = vFloat(math.Inf(1))
+				if strings.HasPrefix(s, "-") {
+					x = vFloat(math.Inf(-1))
+				}
+			}
+			switch rapid.IntRange(0, 5).Draw(t, "against") {
+			case 0:
+				x = vFloat(-x.f()) // the other infinity (NaN stays NaN)
+			case 1:
+				x = genNum(t, true)
+			}
+		} else {
+			x = genNum(t, false)
+			y = x
+			switch rapid.IntRange(0, 7).Draw(t, "via") {
+			case 0, 1:
+				y = otherKind(x)
+			case 2:
+				y = neighbour(t, x)
+			case 3:
+				y = genNum(t, false)
+			}
+			s, how = nonDecimalSpell(t, y)
+		}
+		if rapid.IntRange(0, 7).Draw(t, "pad") == 0 {
+			s = whitePads[3+uniform(t, len(whitePads)-3, "lead")] + s
+			if rapid.Bool().Draw(t, "both") {
+				s += whitePads[3+uniform(t, len(whitePads)-3, "trail")]
+			}
+		}
+		a, b = x, vStr(s)
+		rel += ":" + how
 	case "num-near-numeral":
 		s := rapid.SampledFrom(nearNumerals).Draw(t, "near")
 		var n Val
@@ -1368,10 +1657,14 @@ func oracleHist(c HistCase, o *h.Obs) *h.Fail {
 func TestC06(t *testing.T) {
 	c := h.New(t, "C06")
 	defer c.Finish()
-	c.Rule("ordered pairs (a,b) over nil, bool, int64/float64 edge pools (NaN included), numeral strings derived with strconv from those numbers (sign, leading zeros, fraction, exponent), near-numerals, plain strings, nested slices/maps (depth<=3) paired as copies / one same-typed leaf changed / one leaf changed in numeric type only / length changed / key renamed / kind switched / reordered; every pair evaluated as a==b, b==a, a!=b, b!=a, a in [b], b in [a], switch a{case b}, switch b{case a} and (numeric) a<=b&&a>=b, with literal and with variable operands; laws always asserted, reference value only where the statement defines one; non-trivial = cross-type pair, or both containers, or a number of magnitude >= 1e6; distinct by the spelling of (a,b)")
+	c.Rule("ordered pairs (a,b) over nil, bool, int64/float64 edge pools (NaN included), numeral strings derived with strconv from those numbers (sign, leading zeros, fraction, exponent), near-numerals, numerals with white space around them (of the number, its other kind, a neighbour), plain strings, nested slices/maps (depth<=3) paired as copies / one same-typed leaf changed / one leaf changed in numeric type only / length changed / key renamed / kind switched / reordered; every pair evaluated as a==b, b==a, a!=b, b!=a, a in [b], b in [a], switch a{case b}, switch b{case a} and (numeric) a<=b&&a>=b, with literal and with variable operands; laws always asserted, reference value only where the statement defines one; non-trivial = cross-type pair, or both containers, or a number of magnitude >= 1e6; distinct by the spelling of (a,b)")
 	h.Run(c, "pairs", c.N(50000, 500000), genCase, oracle)
 	c.Rule("stateless: a function comparing its parameter with one literal (==, != both ways, in, switch case) is called for 2-5 values in a row (the number the literal denotes, its other numeric kind, other spellings, neighbours, arbitrary primitives); the results must equal those of the same function evaluated for each value alone in a fresh program; non-trivial = the values are of >= 2 kinds")
 	h.Run(c, "stateless", c.N(8000, 80000), genHist, oracleHist)
-	c.Rule("kinds: ordered pairs whose operands are values of every Go numeric kind a script can hold (float32, int8..int32, int, uint8..uint64: element of a typed slice literal or result of a host function) or int64 / float64 / numeral string / bool / nil, over numbers chosen at the limits of the narrow kinds and where float32 is inexact, held as expression / variable / list element; only the laws are asserted (symmetry, != as negation, in and switch agree with ==), never which pairs are equal; non-trivial = at least one operand of a Go kind other than int64/float64/string/bool")
+	c.Rule("kinds: ordered pairs whose operands are values of every Go numeric kind a script can hold (float32, int8..int32, int, uint8..uint64: element of a typed slice literal or result of a host function) or int64 / float64 / numeral string / bool / nil, over numbers chosen at the limits of the narrow kinds and where float32 is inexact, held as expression / variable / list element; a quarter of the pairs have both operands of ONE typed kind over numbers that kind holds (for uint64/uint half of them above MaxInt64, made by a Go function reading the decimal spelling); the laws are asserted for every pair (symmetry, != as negation, in and switch agree with ==), a reference value only for two operands of one typed Go kind (Go's == on the two values, taken from Go's own conversions); non-trivial = at least one operand of a Go kind other than int64/float64/string/bool")
 	h.Run(c, "kinds", c.N(12000, 120000), genKinds, oracleKinds)
+	c.Rule("foreign: ordered pairs in which at least one operand is not a value of the language's own types: a pointer made with & from a variable holding a language value (pairs of language values drawn like those of `pairs`, one or both behind a pointer or a pointer to a pointer), a script or Go function, struct, pointer to struct, Go array, channel, complex number, uintptr, value of a named int/float/string/bool type, typed slice/map, []byte, error, time, duration, typed nil values, against each other and against bool / nil / numbers / strings / lists / maps; held as expression / variable / list element; only the laws are asserted (symmetry, != as negation, in and switch agree with ==), never which pairs are equal; non-trivial = at least one operand is a pointer or a host value")
+	h.Run(c, "foreign", c.N(6000, 60000), genForeign, oracleForeign)
+	c.Rule("live-slot: the item of `in`, the subject of `switch` and the left operand of == / != are read from a slot (element of an untyped list, of a typed slice, of a []interface{} literal, of a nested list, of a list in a map, field of a struct behind a pointer - typed or interface -, map entry, dereferenced pointer, variable) while the list / case expression / right operand is a call of a function that stores another value into that slot and returns the compared value; (old, compared) or (new, compared) drawn like the pairs of `pairs`, the third value mostly unequal to its partner; every form starts from the slot set up afresh; asserted: slot in [g()], slot in typed[g()], switch slot {case g()} agree with slot == g(), the same with g() on the left, != is the negation, and every answer is the statement's value for (old, compared) or for (new, compared) where both are defined - which of the two is not asserted; non-trivial = the statement defines old == compared and new == compared and they differ")
+	h.Run(c, "live-slot", c.N(5000, 50000), genLive, oracleLive)
 }
